@@ -1,8 +1,8 @@
 SPECIFICATION Spec
-CONSTANTS NF = 4
-          Count = 2
-          MaxLost = 0
-          FilterTmp = TRUE
+CONSTANTS CNF = 4
+          CCount = 2
+          CMaxLost = 0
+          CFilterTmp = TRUE
 INVARIANT W_ReaderNeverSkips
 CONSTRAINT QueueBound
 CHECK_DEADLOCK FALSE
